@@ -41,7 +41,7 @@ def run_case(case):
                         if sc.profile.get("unstaged_replacement_hunks", True):
                             sc.g("add", "--", sc.log[-1][1]); sc.g("commit", "-q", "-m", "only another file")
                         else:
-                            # finding D75: a plain `git commit` would also take whatever else is staged (after reset --soft, git mv ...)
+                            # finding D82: a plain `git commit` would also take whatever else is staged (after reset --soft, git mv ...)
                             # while the work tree differs from it by hunks that remove lines; commit exactly this path instead
                             sc.g("add", "--", sc.log[-1][1]); sc.g("commit", "-q", "-m", "only another file", "--", sc.log[-1][1])
                 ch = sc.op_destructive()
